@@ -166,6 +166,26 @@ theorem write_only_replay_counterexample :
   revert h1
   decide
 
+/-- `do i = i, 2 ; s = s + 1 ; enddo` (i=0, s=1): the loop's WRITE of `i` precedes the READ of
+`i` in its own bound in the access list, so `i` is no input, but it fixes the trip count -/
+def wit3 : Stmt := .loop 0 (.var 0) (.lit 2) (.lit 1) (.assign 1 (.bin .add (.var 1) (.lit 1)))
+
+theorem wit3_inputs : inputs wit3 = [1] := by decide
+
+theorem own_bounds_counterexample :
+    ¬ (∀ σ τ, AgreeV wit3 (inputs wit3) σ τ → AgreeV wit3 (outputs wit3) (exec wit3 σ) (exec wit3 τ)) := by
+  intro h
+  have h1 := h (storeOf [((0, 0, 0), 1)]) (storeOf [((0, 0, 0), 5)])
+    (by
+      intro x hx i j _
+      rw [wit3_inputs] at hx
+      have hx1 : x = 1 := by simpa using hx
+      subst hx1
+      simp [storeOf, Store.set])
+    1 (by decide) 0 0 (Or.inr ⟨rfl, rfl⟩)
+  revert h1
+  decide
+
 /-! ## Non-vacuity and sanity evaluations -/
 
 /-- `t = a(3); do i = 1, n: b(i) = a(i) + t; enddo; s = s + 1`  (a=0 b=1 t=2 i=3 n=4 s=5) -/
